@@ -2,6 +2,7 @@ pub mod c01;
 pub mod c02;
 pub mod c03;
 pub mod c04;
+pub mod c05;
 pub mod c06;
 pub mod c07;
 pub mod c09;
@@ -9,6 +10,7 @@ pub mod c10;
 pub mod c11;
 pub mod c12;
 pub mod c13;
+pub mod c14;
 pub mod c15;
 pub mod c16;
 pub mod c17;
@@ -25,6 +27,7 @@ pub fn lookup(id: &str) -> Option<(CheckFn, ReplayFn)> {
         "C02" => Some((c02::run, c02::replay)),
         "C03" => Some((c03::run, c03::replay)),
         "C04" => Some((c04::run, c04::replay)),
+        "C05" => Some((c05::run, c05::replay)),
         "C06" => Some((c06::run, c06::replay)),
         "C07" => Some((c07::run, c07::replay)),
         "C09" => Some((c09::run, c09::replay)),
@@ -32,6 +35,7 @@ pub fn lookup(id: &str) -> Option<(CheckFn, ReplayFn)> {
         "C11" => Some((c11::run, c11::replay)),
         "C12" => Some((c12::run, c12::replay)),
         "C13" => Some((c13::run, c13::replay)),
+        "C14" => Some((c14::run, c14::replay)),
         "C15" => Some((c15::run, c15::replay)),
         "C16" => Some((c16::run, c16::replay)),
         "C17" => Some((c17::run, c17::replay)),
